@@ -59,7 +59,11 @@ def gen_case(rng):
             return "C%d" % h
         if r < 0.53:
             return rng.choice(["S%d,0", "O%d,9", "S%d,65", "O%d,0"]) % h
-        if r < 0.80 or not top:
+        if r < 0.56:
+            return "U%d" % rng.choice(loops)          # uv_stop
+        if r < 0.60:
+            return "J%d" % h                          # use the memory of a closed handle again
+        if r < 0.82 or not top:
             return kill()
         return "R%d" % rng.choice(loops)
     # every loop gets a handle first, the rest anywhere
@@ -104,6 +108,86 @@ def gen_burst(rng):
     return "4096 ; %s ; %s" % (" ".join(ops), " | ".join(behs))
 
 
+def gen_reuse(rng):
+    """uv_close + uv_stop in the iteration that caught a signal for the handle, then the handle's memory is
+    used for a new watcher (close_cb only after the caught signals are dispatched; no callback for a signal
+    raised before the start)"""
+    sa, sb = rng.sample(SIGS, 2)
+    nh = rng.choice([2, 2, 3])
+    a = 0
+    ops = ["I0"] * nh + [rng.choice(["S", "O"]) + "%d,%d" % (a, sa)]
+    ops += ["S%d,%d" % (h, rng.choice([sa, sb])) for h in range(1, nh)]
+    ops[nh + 1] = "S1,%d" % sb
+    ops += ["K%d" % sb] * rng.choice([1, 1, 2]) + ["R0"]
+    inner = ["K%d" % sa] * rng.choice([1, 1, 2]) + ["C%d" % a] + (["U0"] if rng.random() < 0.8 else [])
+    if rng.random() < 0.5:
+        rng.shuffle(inner)
+    behs = [" ".join(inner)] + [rng.choice(["", "", "U0", "K%d" % sa, "J%d" % a]) for _ in range(3)]
+    mid = rng.choice([[], [], ["R0"], ["U0", "R0"], ["R0", "R0"]])
+    ops += mid + ["J%d" % a, rng.choice(["S", "O"]) + "%d,%d" % (a, rng.choice([sa, sa, sb]))]
+    ops += rng.choice([[], ["K%d" % sa], ["K%d" % sb]]) + ["R0", "R0", "R0", "J%d" % a, "R0", "R0"]
+    return "4096 ; %s ; %s" % (" ".join(ops), " | ".join(behs))
+
+
+def gen_fork(rng):
+    """fork() + uv_loop_fork() in the child, then both processes use their copy of the loop: every process
+    must get exactly its own deliveries, and the child's signal pipe must be a new one"""
+    nh = rng.choice([0, 1, 1, 2, 2])
+    sigs = rng.sample(SIGS, rng.choice([1, 2, 2, 3]))
+    prefix = ["I0"] * nh
+    started_at_fork = rng.random() < 0.4
+    for h in range(nh):
+        r = rng.random()
+        if r < 0.6:
+            prefix.append(rng.choice(["S", "O"]) + "%d,%d" % (h, rng.choice(sigs)))
+            if rng.random() < 0.5:
+                prefix.append("K%d" % rng.choice(sigs))
+            if rng.random() < 0.4:
+                prefix.append("R0")
+            if not started_at_fork:
+                prefix.append(rng.choice(["T%d", "T%d", "C%d"]) % h)
+    if rng.random() < 0.3:
+        prefix.append("R0")
+    cnt = {"p": nh, "c": nh}
+    tagged = []
+
+    def one(w):
+        r = rng.random()
+        if r < 0.12 and cnt[w] < 4:
+            cnt[w] += 1
+            return "I0"
+        if cnt[w] == 0:
+            return rng.choice(["K%d" % rng.choice(sigs), "R0"])
+        h = rng.randrange(cnt[w])
+        if r < 0.34:
+            return "S%d,%d" % (h, rng.choice(sigs))
+        if r < 0.48:
+            return "O%d,%d" % (h, rng.choice(sigs))
+        if r < 0.56:
+            return "T%d" % h
+        if r < 0.60:
+            return "C%d" % h
+        if r < 0.82:
+            return "K%d" % rng.choice(sigs)
+        return "R0"
+    # the typical failing shape first: a process starts a watcher and gets a signal, the OTHER one polls first
+    if rng.random() < 0.7:
+        w, o = rng.choice([("c", "p"), ("p", "c")])
+        if cnt[w] == 0:
+            tagged.append(w + ":I0")
+            cnt[w] += 1
+        sg = rng.choice(sigs)
+        tagged += [w + ":S0,%d" % sg, w + ":K%d" % sg, o + ":R0", w + ":R0"]
+    for _ in range(rng.randint(4, 18)):
+        w = rng.choice("pc")
+        tagged.append(w + ":" + one(w))
+    tagged += ["p:R0", "c:R0"] * 3
+    behs = []
+    for _ in range(rng.choice([0, 0, 2, 5])):
+        behs.append(rng.choice(["", "K%d" % rng.choice(sigs), "T0", "K%d K%d" % (sigs[0], sigs[-1])]))
+    return "fork 4096 ; %s ; %s ; %s" % (" ".join(prefix), " ".join(tagged), " | ".join(behs))
+
+
 def exhaustive_small(n=3):
     """every program of n operations over 2 handles x 2 signals, followed by a fixed tail"""
     alpha = []
@@ -146,6 +230,8 @@ class Mon:
         self.cb_count = 0
         self.run = None             # dict of the run in progress
         self.quiet = {}             # loop -> the previous run of that loop had nothing to do
+        self.stopf = {}             # loop -> uv_stop() called since the last run ended
+        self.inc = []               # handle -> first session number of the current use of the memory
 
     def bad(self, key, text):
         self.findings.append((key, text))
@@ -223,7 +309,10 @@ class Mon:
             ses, _ = q.popleft()
             if self.run:
                 self.run["popped"][h] = self.run["popped"].get(h, 0) + 1
-            if ses != self.sess[h]:
+            if ses < self.inc[h]:
+                self.bad(None, "handle %d got a callback for a signal caught by the closed handle that used its memory "
+                               "before (close_cb ran while that signal was undispatched)" % h)
+            elif ses != self.sess[h]:
                 self.bad(K_STALE, "handle %d restarted on signal %d got a signal caught before the restart" % (h, s))
         self.cbs[h] += 1
         if self.mode[h] == "O" and self.cbs[h] > 1:
@@ -286,7 +375,8 @@ class Mon:
     def run_begin(self, l):
         hl = [h for h in range(len(self.q)) if self.loop[h] == l]
         self.run = {"l": l, "n0": {h: len(self.q[h]) for h in hl}, "popped": {},
-                    "total0": sum(len(self.q[h]) for h in hl), "cbs": 0, "closed": 0}
+                    "total0": sum(len(self.q[h]) for h in hl), "cbs": 0, "closed": 0,
+                    "skipped": bool(self.stopf.get(l))}         # uv_stop() before the run: no iteration
 
     def on_close_cb(self, h):
         if not self.closing[h] or self.closed[h]:
@@ -303,6 +393,12 @@ class Mon:
     def run_end(self, l):
         r = self.run
         self.run = None
+        self.stopf[l] = False                          # uv_run clears stop_flag on the way out
+        if r["skipped"]:
+            if r["cbs"] or r["closed"]:
+                self.bad(None, "uv_run after uv_stop ran callbacks")
+            self.quiet[l] = False
+            return
         quiet = r["cbs"] == 0 and not r["closed"]
         twice = quiet and self.quiet.get(l, False)     # second run in a row with nothing to do: the pipe is empty
         self.quiet[l] = quiet
@@ -344,7 +440,7 @@ class Mon:
 
     def do_op(self, o, top):
         k = o[0]
-        args = [int(x) for x in o[1:].split(",")]
+        args = [int(x) for x in o[1:].split(",")] if len(o) > 1 else []
         t = self.nxt()
         if t == "x":
             pass
@@ -352,7 +448,7 @@ class Mon:
             for lst, v in ((self.loop, args[0]), (self.sig, 0), (self.mode, "P"), (self.ever_one, False),
                            (self.closing, False), (self.closed, False), (self.caught, False), (self.cbs, 0),
                            (self.sess, 0), (self.q, deque()), (self.old_at_start, 0), (self.in_own_cb_start, False),
-                           (self.own_cb_sig, None)):
+                           (self.own_cb_sig, None), (self.inc, 0)):
                 lst.append(v)
         elif k in "SO":
             self.on_start(args[0], args[1], "P" if k == "S" else "O", int(t[1:]))
@@ -365,6 +461,23 @@ class Mon:
             self.end_session(args[0])
         elif k == "K":
             self.on_raise(args[0], int(t[1:]))
+        elif k == "U":
+            self.stopf[args[0]] = True
+        elif k == "J":
+            h = args[0]
+            if not self.closed[h]:
+                self.bad(None, "harness re-initialised handle %d before its close_cb" % h)
+            self.closing[h] = self.closed[h] = False
+            self.sess[h] += 1
+            self.inc[h] = self.sess[h]                 # what is still queued belongs to the closed handle
+            self.sig[h], self.mode[h], self.ever_one[h], self.caught[h], self.cbs[h] = 0, "P", False, False, 0
+        elif k == "F":
+            if t == "fp":
+                return                                 # the parent: nothing happens, no snapshot
+            if t != "f0":
+                self.bad(None, "after fork() + uv_loop_fork() the child still uses the signal pipe of the parent (%s)" % t)
+            for q in self.q:
+                q.clear()                              # what was in the old pipe is the parent's
         elif k == "R":
             self.run_begin(args[0])
             while True:
@@ -413,7 +526,28 @@ def monitor(case, line):
         return [(None, "the harness process died: " + line[-40:])]
     if line.startswith("envfail") or line.startswith("badcase"):
         return [(None, "harness: " + line)]
+    if case.startswith("fork "):
+        return monitor_fork(case[5:], line)
     return Mon(case).feed(line.split())
+
+
+def monitor_fork(case, line):
+    """each of the two processes is judged on its own: the prefix + its own operations"""
+    cap, prefix, tagged, behs = case.split(";")
+    if "||" not in line or "peerdied" in line or "childcrash" in line:
+        return [(None, "fork family: a process died or the trace is incomplete: " + line[-60:])]
+    ptxt, ctxt = line.split("||")
+    ptoks, ctoks = ptxt.split(), ctxt.split()
+    if "fp" not in ptoks:
+        return [(None, "fork family: no fork marker in the parent's trace")]
+    npre = ptoks.index("fp")
+    out = []
+    for who, toks in (("p", ptoks), ("c", ptoks[:npre] + ctoks)):
+        ops = prefix.split() + ["F"] + [t[2:] for t in tagged.split() if t[0] == who and t[1] == ":"]
+        m = Mon("%s ; %s ; %s" % (cap, " ".join(ops), behs))
+        for k, t in m.feed(toks):
+            out.append((k, ("parent: " if who == "p" else "child after fork: ") + t))
+    return out
 
 
 # --------------------------------------------------------------------------
@@ -446,6 +580,8 @@ def main():
         cases = known_cases + read("cases.txt")
         cases += [gen_case(chk.rng) for _ in range(40000 if thorough else 3000)]
         cases += [gen_burst(chk.rng) for _ in range(3000 if thorough else 200)]
+        cases += [gen_reuse(chk.rng) for _ in range(3000 if thorough else 300)]
+        cases += [gen_fork(chk.rng) for _ in range(6000 if thorough else 600)]
         cases += exhaustive_small(4 if thorough else 3)
     a, rc, err = vf.run_lines([harness], cases, shards=16)
     b, rc2, err2 = vf.run_lines(mcmd, cases, shards=16)
@@ -467,7 +603,7 @@ def main():
             dis.append((0 if unknown else 1, len(c), c, x, y, unknown, fnd))
             continue
         for k, t in fnd:
-            kk = k or t.split(" handle ")[0][:60]
+            kk = k or t.split(" handle ")[0][:80]
             if kk in reported:
                 reported[kk] += 1
                 continue
@@ -495,7 +631,9 @@ def main():
         level="proof",
         rule="random API scripts (1-5 handles, 1-3 loops each created and run on its own pthread and serialised by the "
              "script, signals delivered to a scripted thread by raise()/pthread_kill(), 1-4 of SIGHUP/SIGUSR1/SIGUSR2/SIGWINCH, "
-             "scripted callbacks), bursts of more than 32 messages, every 3-operation program over 2 handles x 2 signals "
+             "scripted callbacks, uv_stop, re-use of a closed handle's memory), bursts of more than 32 messages, close + uv_stop "
+             "+ re-use scripts, fork() + uv_loop_fork() scripts with both processes using their loop (own deliveries only, "
+             "new signal pipe in the child), every 3-operation program over 2 handles x 2 signals "
              "with a fixed tail; real raise(), sigaction() and uv_is_active() after every operation; a case is "
              "non-trivial when at least one signal callback ran and its (case, trace) pair is distinct",
         trusted=["Coq 8.16.1 kernel (coqc)", "ExtrOcamlBasic extraction + OCaml 4.13.1 (ocaml/zutil.ml, drv_c13.ml)",
